@@ -648,9 +648,9 @@ func TestProp(t *testing.T) {
 			"manager part: millisecond retry intervals; a case that does not finish within 30 s is discarded, a task removed from the store while the remote lacks the tag is a violation",
 		},
 		Parts: []pbt.Part{
-			pbt.NewPart("exec", 14, genCase, runExec),
+			pbt.NewPart("exec", 16, genCase, runExec),
 			pbt.NewPart("manager", 1, genCase, runManager),
-			pbt.NewPart("chain", 3, genChain, runChain),
+			pbt.NewPart("chain", 1, genChain, runChain),
 		},
 	})
 }
